@@ -62,7 +62,7 @@ func runSeededCorpus(pid, repo string) map[string]any {
 	}
 	sort.Slice(todo, func(i, j int) bool { return todo[i].ID < todo[j].ID })
 	results := make([]res, len(todo))
-	sem := make(chan struct{}, 6)
+	sem := make(chan struct{}, 4)
 	var wg sync.WaitGroup
 	self, _ := os.Executable()
 	for i, m := range todo {
